@@ -324,7 +324,8 @@ def run_property(prop: str, tier: str, seed: int, only: str | None = None, verbo
                 if verbose:
                     sub = items[idx][0]
                     print(f"  [{prop}] {sub.name}: {r.get('status')} paths={r.get('paths', r.get('cases', '-'))} reach={r.get('reach', '-')} "
-                          f"t={r.get('wall_s', '-')}s {str(r.get('message', r.get('detail', '')))[:160]}", flush=True)
+                          f"cpu={r.get('process_s', r.get('solver_s', '-'))}s wall={r.get('wall_s', '-')}s "
+                          f"{str(r.get('message', r.get('detail', '')))[:160]}", flush=True)
 
     # ---------------------------------------------------------------- classify
     violations, harness_errors, nonexhaustive, inconclusive = [], [], [], []
@@ -395,10 +396,13 @@ def run_property(prop: str, tier: str, seed: int, only: str | None = None, verbo
 
     # ---------------------------------------------------------------- known findings (concrete replay of listed witnesses)
     known_lines = []
+    selected_parents = {parent for _sub, parent in items}
     for k in known:
         fn_name = k.get("replay_fn")
         if not fn_name:
             continue
+        if only and k.get("obligation") not in selected_parents:
+            continue  # partial run (--only): findings of obligations that were not selected are not replayed
         ok, msg = run_replay(prop, fn_name, _unjson(k.get("witness", {})))
         if ok is True:
             known_lines.append(f"KNOWN-FINDING: property={prop} {k.get('what', '')} [obligation={k.get('obligation')} witness={json.dumps(k.get('witness'))}]")
